@@ -12,6 +12,13 @@ enums  : whole enums with 1..3 (thorough: 4) variants - {variant with a source, 
          would-be source, ambiguous} in every order; `source()` is observed on EVERY variant (ignored ones must give
          None), the emitted `match self` must be exhaustive (wildcard decided against ALL variants), and a
          documented-valid enum whose expansion does not compile is a violation with the enum as replay.
+provide: the model of render_provide_as_struct / _enum_variant_match_arm and of the backtrace selection vs the real
+         expansion (which member / binding is handed to `provide_ref::<Backtrace>`, whose `provide` is forwarded, the
+         `_ => ()` arm) - every layout and every enum; documented provide() rules by an independent evaluator.
+types  : the model of utils.rs is_type_parameter_used_in_type / get_if_.. and error.rs is_type_path_ends_with_segment on
+         generated field types (paths with qself / generic / associated / constraint arguments, references, arrays,
+         slices, pointers, tuples, fn types, trait objects, never/infer/impl/macro) vs the real derive: which type
+         receives the `Error + 'static` bound (text of the bounded type) and whether the type counts as `Backtrace`.
 oracle : an independent Python evaluator of impl/doc/error.md + the property text (NOT the Coq spec) decides what
          must be returned / rejected; compared with the run-time observation (or the expansion where the layout
          cannot be compiled), and cross-checked against the Coq `documented_source`.
@@ -299,14 +306,20 @@ def read_expansion(case, resp):
         else:
             r["returned"] = pattern_binding(body, case, "source", OPT + r"Some \(source \. as_dyn_error \(\)\)")
             r["wildcard"] = re.search(r"_ => " + OPT + r"None \}", body) is not None
+    r["provided"] = (None, None)              # (field handed to provide_ref::<Backtrace>, field whose provide() is forwarded)
     if "provide" in mem:
         body = mem["provide"]
         r["provide_source"] = "Error :: provide (" in body
         if kind == "struct":
             m = re.search(r"provide_ref :: < :: std :: backtrace :: Backtrace > \(& self \. (\w+)\)", body)
             r["bt_field"] = field_index(m.group(1), case) if m else None
-        elif "provide_ref" in body:
-            r["bt_field"] = pattern_binding(body, case, "backtrace", r"\{")
+            m2 = re.search(r"with_trait :: Error :: provide \(& self \. (\w+) , request\)", body)
+            r["provided"] = (r["bt_field"], field_index(m2.group(1), case) if m2 else None)
+        else:
+            if "provide_ref" in body:
+                r["bt_field"] = pattern_binding(body, case, "backtrace", r"\{")
+            fwd = pattern_binding(body, case, "source", r"\{") if "Error :: provide (source , request)" in body else None
+            r["provided"] = (r["bt_field"], fwd)
     for w in impl["where"]:
         m = re.match(r"^T(\d+) : .*with_trait :: Error \+ 'static$", w)
         if m:
@@ -348,6 +361,28 @@ def doc_source(shape, fields):
     return None
 
 
+def doc_backtrace(shape, fields):
+    """provide() rules of impl/doc/error.md (+ named-by-type, pinned by the nightly tests): index | None | 'ambiguous'"""
+    live = [(i, f) for i, f in enumerate(fields) if f[2] != "ignore"]
+    marked = [i for i, f in live if f[2] == "backtrace"]
+    if len(marked) > 1:
+        return "ambiguous"
+    if marked:
+        return marked[0]
+    c = [i for i, f in live if f[2] != "not(backtrace)" and (f[1] == "bt" or (shape == "named" and f[0] == "backtrace"))]
+    return "ambiguous" if len(c) > 1 else (c[0] if c else None)
+
+
+def doc_provide(shape, fields):
+    """(field offered by reference as the Backtrace, field whose provide() is forwarded) | 'ambiguous'"""
+    b, s = doc_backtrace(shape, fields), doc_source(shape, fields)
+    if b == "ambiguous" or s == "ambiguous":
+        return "ambiguous"
+    if b is None:
+        return (None, None)
+    return (None if s == b else b, s)
+
+
 def doc_backtrace_ambiguous(shape, fields):
     """is the *backtrace* selection ambiguous under any reading of the provide() rules (a rejection is then
     justified although the source is determined)"""
@@ -384,7 +419,9 @@ def coq_case(case):
     sh = "Named" if shape == "named" else "Unnamed"
     k = "Struct" if kind == "struct" else "Variant"
     ign = "true" if kind == "ignored_variant" else "false"
-    return "(run_case %s %s %s, run_enum_case %s %s %s, run_case_old %s %s %s)" % (k, sh, fs, ign, sh, fs, k, sh, fs)
+    if kind == "struct":
+        return "(run_full %s %s %s, run_case_old %s %s %s, (OOk, @None nat, @None nat))" % (k, sh, fs, k, sh, fs)
+    return "(run_full %s %s %s, run_case_old %s %s %s, run_enum_case %s %s %s)" % (k, sh, fs, k, sh, fs, ign, sh, fs)
 
 
 def copt(t):
@@ -404,15 +441,25 @@ def cdoc(t):
 OUTC = {"OOk": "ok", "OErr": "err", "OPanic": "panic"}
 
 
+def cprov(t):
+    return "ambiguous" if t == "Ambiguous" else (copt(t[1][0]), copt(t[1][1]))
+
+
 def model_result(case, term):
     kind = case[0]
-    rc, re_, rf = term[:5], term[5], term[6]      # Coq prints left-nested pairs flattened
-    r = {"doc": cdoc(rc[4]),
-         "old": {"outcome": OUTC[rf[0]], "returned": copt(rf[2]), "bound": copt(rf[3])}}
+    # Coq prints left-nested pairs flattened: run_full is (o, (a, b, c), (d, e, f), (g, h, i)); the outer tuple
+    # (run_full, old[, enum]) therefore starts with run_full's four components
+    o, (sel, ret, bnd), (bt, pref, pfwd), (dsrc, dbt, dprov) = term[0], term[1], term[2], term[3]
+    rf = term[4]
+    re_ = term[5] if len(term) > 5 else None
+    r = {"doc": cdoc(dsrc),
+         "old": {"outcome": OUTC[rf[0]], "returned": copt(rf[2]), "bound": copt(rf[3])},
+         "provide": {"outcome": OUTC[o], "backtrace": copt(bt), "provided": (copt(pref), copt(pfwd)),
+                     "doc_backtrace": cdoc(dbt), "doc_provide": cprov(dprov)}}
     if kind == "struct":
-        r.update(outcome=OUTC[rc[0]], returned=copt(rc[2]), bound=copt(rc[3]), sel=copt(rc[1]))
+        r.update(outcome=OUTC[o], returned=copt(ret), bound=copt(bnd), sel=copt(sel))
     elif kind == "variant":
-        r.update(outcome=OUTC[rc[0]], returned=copt(rc[2]), bound=copt(rc[3]), sel=copt(rc[1]),
+        r.update(outcome=OUTC[o], returned=copt(ret), bound=copt(bnd), sel=copt(sel),
                  enum=(OUTC[re_[0]], copt(re_[1]), copt(re_[2])))
     else:
         r.update(outcome=OUTC[re_[0]], returned=copt(re_[1]), bound=None, sel=None,
@@ -581,7 +628,7 @@ def m_read(variants, resp):
     mem = {m["sig"].split()[1]: m["body"] for m in impl["members"]}
     r = {"outcome": "ok", "has_fn": "source" in mem, "wildcard": False, "returned": [None] * len(variants), "bounds": [],
          "provide": "provide" in mem, "real": set(), "compilable": True, "why": "", "msg": "", "provide_wildcard": None,
-         "provide_arms": []}
+         "provide_arms": [], "provided": [(None, None)] * len(variants)}
     if "source" in mem:
         body = mem["source"]
         if not re.match(r"^\{ use derive_more :: __private :: AsDynError ; match self \{ .* \} \}$", body):
@@ -607,6 +654,7 @@ def m_read(variants, resp):
             arm = m.group(2)
             src = pattern_binding(body, ("variant", sh, fs), "source", r"\{", "V%d" % v)
             bt = pattern_binding(body, ("variant", sh, fs), "backtrace", r"\{", "V%d" % v)
+            r["provided"][v] = (bt if "provide_ref" in arm else None, src if "Error :: provide (source , request)" in arm else None)
             if "Error :: provide (source" in arm and isinstance(src, int) and fs[src][1] == "box":
                 r["compilable"], r["why"] = False, "provide-through-box"
             if "provide_ref" in arm:
@@ -629,13 +677,16 @@ def m_coq(variants):
     for ig, sh, fs in variants:
         vs.append("(mkVariant %s %s [%s])" % ("true" if ig else "false", "Named" if sh == "named" else "Unnamed",
                                               "; ".join(coq_field(f, i) for i, f in enumerate(fs))))
-    return "(run_enum [%s])" % "; ".join(vs)
+    return "(run_enum [%s], run_enum_provide [%s])" % ("; ".join(vs), "; ".join(vs))
 
 
 def m_model(term):
-    o, flags, rets, bounds = term
+    o, flags, rets, bounds, prov = term          # run_enum's four components (flattened), then run_enum_provide
+    po, pflags, prets = prov
     return {"outcome": OUTC[o], "has_fn": flags[0] == "true", "wildcard": flags[1] == "true", "exhaustive": flags[2] == "true",
-            "returned": [copt(x) for x in rets], "bounds": sorted([(a, b) for (a, b) in bounds], key=str)}
+            "returned": [copt(x) for x in rets], "bounds": sorted([(a, b) for (a, b) in bounds], key=str),
+            "provide": {"outcome": OUTC[po], "has_fn": pflags[0] == "true", "wildcard": pflags[1] == "true",
+                        "exhaustive": pflags[2] == "true", "provided": [(copt(a), copt(b)) for (a, b) in prets]}}
 
 
 M_CORPUS = [
@@ -720,6 +771,231 @@ def m_generate(chk, tier):
     return list(dict.fromkeys(cases))
 
 
+# ------------------------------------------------------------------ field types (utils.rs: which types get bounded)
+#
+# Python AST of a type (mirrors Model.ty):
+#   ("path", qself|None, [(name, args)])      args: None | ("angle", [garg]) | ("paren", [ty], ty|None)
+#   garg: ("type", ty) | ("assoc", name, ty) | ("constraint", name, boundname) | ("lifetime",) | ("const",) | ("assoc_const", name)
+#   ("ref", mut, ty) | ("wrap", kind, ty) kind in array/slice/paren/ptr_const/ptr_mut | ("tuple", [ty]) |
+#   ("barefn", [ty], ty|None) | ("dyn", [bound]) bound: ("trait", [(name, args)]) | ("lifetime",) | ("other", kind)
+
+T_ID = {"Backtrace": 2, "Vec": 10, "u8": 11, "Box": 12, "Option": 13, "Tr": 14, "X": 15, "std": 16, "Foo": 17, "Fn": 18,
+        "Inner": 19, "bt": 20, "T0": 100, "T1": 101}
+T_PARAMS = ["T0", "T1"]
+
+
+def t_rust(t):
+    k = t[0]
+    if k == "path":
+        segs = "::".join(n + t_args(a) for n, a in t[2])
+        if t[1] is None:
+            return segs
+        if len(t[2]) >= 2:
+            return "<%s as %s>::%s" % (t_rust(t[1]), "::".join(n + t_args(a) for n, a in t[2][:-1]), t[2][-1][0] + t_args(t[2][-1][1]))
+        return "<%s>::%s" % (t_rust(t[1]), segs)
+    if k == "ref":
+        return "&'static %s%s" % ("mut " if t[1] else "", t_rust(t[2]))
+    if k == "wrap":
+        e = t_rust(t[2])
+        return {"array": "[%s; 2]", "slice": "[%s]", "paren": "(%s)", "ptr_const": "*const %s", "ptr_mut": "*mut %s"}[t[1]] % e
+    if k == "tuple":
+        return "(%s%s)" % (", ".join(t_rust(x) for x in t[1]), "," if len(t[1]) == 1 else "")
+    if k == "barefn":
+        return "fn(%s)%s" % (", ".join(t_rust(x) for x in t[1]), "" if t[2] is None else " -> " + t_rust(t[2]))
+    if k == "dyn":
+        return "dyn " + " + ".join("'static" if b[0] == "lifetime" else "::".join(n + t_args(a) for n, a in b[1]) for b in t[1])
+    return {"never": "!", "infer": "_", "impl": "impl Tr<T0>", "macro": "mac!(T0)"}[t[1]]
+
+
+def t_args(a):
+    if a is None:
+        return ""
+    if a[0] == "angle":
+        out = []
+        for g in a[1]:
+            out.append({"type": lambda: t_rust(g[1]), "assoc": lambda: "%s = %s" % (g[1], t_rust(g[2])),
+                        "constraint": lambda: "%s: %s" % (g[1], g[2]), "lifetime": lambda: "'static", "const": lambda: "3",
+                        "assoc_const": lambda: "%s = 3" % g[1]}[g[0]]())
+        return "<%s>" % ", ".join(out)
+    return "(%s)%s" % (", ".join(t_rust(x) for x in a[1]), "" if a[2] is None else " -> " + t_rust(a[2]))
+
+
+def t_coq(t):
+    k = t[0]
+    lst = lambda xs, f: "[" + "; ".join(f(x) for x in xs) + "]"
+    opt = lambda x: "None" if x is None else "(Some %s)" % t_coq(x)
+    if k == "path":
+        return "(TyPath %s %s)" % (opt(t[1]), lst(t[2], t_coq_seg))
+    if k == "ref":
+        return "(TyRef %s)" % t_coq(t[2])
+    if k == "wrap":
+        return "(TyWrap %s)" % t_coq(t[2])
+    if k == "tuple":
+        return "(TyTuple %s)" % lst(t[1], t_coq)
+    if k == "barefn":
+        return "(TyBareFn %s %s)" % (lst(t[1], t_coq), opt(t[2]))
+    if k == "dyn":
+        return "(TyTraitObject %s)" % lst(t[1], lambda b: "BLifetime" if b[0] == "lifetime" else "(BTrait %s)" % lst(b[1], t_coq_seg))
+    return "TyOther"
+
+
+def t_coq_seg(sg):
+    n, a = sg
+    if a is None:
+        ca = "PNone"
+    elif a[0] == "angle":
+        ca = "(PAngle [" + "; ".join({"type": lambda: "(GType %s)" % t_coq(g[1]), "assoc": lambda: "(GAssocType %s)" % t_coq(g[2]),
+                                       "constraint": lambda: "(GConstraint %d)" % T_ID[g[1]]}.get(g[0], lambda: "GOther")()
+                                      for g in a[1]) + "])"
+    else:
+        ca = "(PParen [%s] %s)" % ("; ".join(t_coq(x) for x in a[1]), "None" if a[2] is None else "(Some %s)" % t_coq(a[2]))
+    return "(Seg %d %s)" % (T_ID[n], ca)
+
+
+def t_random(rng, depth):
+    leafs = ["T0", "T1", "u8", "Inner", "Backtrace"]
+    if depth <= 0 or rng.random() < 0.25:
+        n = rng.choice(leafs)
+        r = rng.random()
+        if r < 0.15:
+            return ("path", None, [(rng.choice(["bt", "std"]), None), (n, None)])
+        if r < 0.25 and n in T_PARAMS:
+            return ("path", None, [(n, None), ("X", None)])                    # T0::X
+        return ("path", None, [(n, None)])
+    sub = lambda: t_random(rng, depth - 1)
+    k = rng.choice(["generic", "generic", "ref", "wrap", "tuple", "barefn", "dyn", "dyn", "qself", "other", "gargs"])
+    # (a bare `Fn(A) -> B` path type is not accepted by this syn as a field type; parenthesized arguments are
+    #  exercised through `dyn Tr(A) -> B` bounds, which go through the same `used_in_path`)
+    if k == "generic":
+        head = rng.choice(["Vec", "Box", "Option", "Foo", "Backtrace"])
+        segs = [(head, ("angle", [("type", sub()) for _ in range(rng.randrange(1, 3))]))]
+        if rng.random() < 0.2:
+            segs = [("std", None)] + segs
+        if rng.random() < 0.15:
+            segs = segs + [("X", None)]
+        return ("path", None, segs)
+    if k == "gargs":
+        g = rng.choice([("assoc", "X", sub()), ("constraint", rng.choice(["X", "T0", "T1"]), "Tr"), ("lifetime",), ("const",),
+                        ("assoc_const", "X"), ("type", sub())])
+        return ("path", None, [("Foo", ("angle", [g] + ([("type", sub())] if rng.random() < 0.3 else [])))])
+    if k == "ref":
+        return ("ref", rng.random() < 0.3, sub())
+    if k == "wrap":
+        return ("wrap", rng.choice(["array", "slice", "paren", "ptr_const", "ptr_mut"]), sub())
+    if k == "tuple":
+        return ("tuple", [sub() for _ in range(rng.randrange(0, 4))])
+    if k == "barefn":
+        return ("barefn", [sub() for _ in range(rng.randrange(0, 3))], sub() if rng.random() < 0.6 else None)
+    if k == "dyn":
+        bs = [("trait", [(rng.choice(["Tr", "T0"]), rng.choice([None, ("angle", [("type", sub())]), ("angle", [("assoc", "X", sub())]),
+                                                               ("paren", [sub()], sub() if rng.random() < 0.5 else None)]))])]
+        if rng.random() < 0.4:
+            bs.append(("lifetime",))
+        return ("dyn", bs)
+    if k == "qself":
+        # always `<Q as Tr>::X`: the trait-less `<Q>::X` (inherent associated type, unstable) makes add_extra_where_clauses
+        # panic ("generic parameters on `where` clauses are reserved") - an internal failure outside this property
+        return ("path", sub(), [("Tr", rng.choice([None, ("angle", [("type", sub())])])), ("X", None)])
+    return ("other", rng.choice(["never", "infer", "impl", "macro"]))
+
+
+P = lambda n: ("path", None, [(n, None)])
+T_CORPUS = [
+    P("T0"), P("u8"), P("Backtrace"), ("path", None, [("bt", None), ("Backtrace", None)]),
+    ("path", None, [("Backtrace", ("angle", [("type", P("u8"))]))]), ("path", None, [("Backtrace", None), ("X", None)]),
+    ("ref", False, P("T0")), ("ref", True, ("ref", False, P("T1"))), ("ref", False, P("Backtrace")),
+    ("wrap", "array", P("T0")), ("wrap", "slice", P("T0")), ("wrap", "paren", P("T0")), ("wrap", "ptr_const", P("T0")),
+    ("wrap", "paren", P("Backtrace")),
+    ("tuple", [P("u8"), P("T1")]), ("tuple", []), ("tuple", [P("T0")]),
+    ("barefn", [P("T0")], None), ("barefn", [], P("T1")), ("barefn", [P("u8")], P("u8")),
+    ("dyn", [("trait", [("Tr", ("angle", [("type", P("T0"))]))]), ("lifetime",)]),
+    ("dyn", [("trait", [("Tr", ("angle", [("assoc", "X", P("T0"))]))])]),
+    ("dyn", [("trait", [("Fn", ("paren", [P("T0")], P("T1")))])]),
+    ("dyn", [("trait", [("T0", None)])]),                                   # a bound path is not a path TYPE: first segment not tested
+    ("path", None, [("Box", ("angle", [("type", ("dyn", [("trait", [("Fn", ("paren", [P("u8")], P("T1")))])]))]))]),
+    ("path", None, [("Vec", ("angle", [("type", ("path", None, [("Option", ("angle", [("type", P("T0"))]))]))]))]),
+    ("path", None, [("T0", None), ("X", None)]), ("path", None, [("std", None), ("T0", None)]),   # only the FIRST segment is tested
+    ("path", P("T0"), [("Tr", None), ("X", None)]), ("path", P("u8"), [("Tr", ("angle", [("type", P("T1"))])), ("X", None)]),
+    ("path", None, [("Foo", ("angle", [("constraint", "T0", "Tr")]))]), ("path", None, [("Foo", ("angle", [("constraint", "X", "Tr")]))]),
+    ("path", None, [("Foo", ("angle", [("lifetime",), ("const",), ("assoc_const", "X")]))]),
+    ("dyn", [("trait", [("Fn", ("paren", [P("T0")], None))])]), ("dyn", [("trait", [("Fn", ("paren", [], P("T0")))])]),
+    ("other", "never"), ("other", "infer"), ("other", "impl"), ("other", "macro"),
+    ("wrap", "array", ("tuple", [P("u8"), ("ref", False, ("wrap", "slice", P("T1")))])),
+]
+
+
+def t_from_coq(term):
+    """parsed Coq `ty` -> a canonical nested tuple (to compare model outputs with the encodings of candidate types)"""
+    return json.dumps(term, sort_keys=True)
+
+
+def t_mentions_param(t):
+    return re.search(r"\bT[01]\b", t_rust(t)) is not None
+
+
+def run_types(chk, inproc, tier):
+    rng = chk.rng
+    types = list(T_CORPUS) + [t_random(rng, rng.randrange(1, 4)) for _ in range(700 if tier == "quick" else 6000)]
+    types = list({t_rust(t): t for t in types}.values())
+    reqs = []
+    for t in types:
+        reqs.append({"cmd": "expand", "derive": "Error", "item": "struct E<T0, T1>(#[error(source)] %s);" % t_rust(t)})
+        reqs.append({"cmd": "expand", "derive": "Error", "item": "struct E<T0, T1>(%s, Inner);" % t_rust(t)})
+    resps = common.run_jsonl(inproc, reqs)
+    ps = "[%d; %d]" % (T_ID["T0"], T_ID["T1"])
+    # per type: the model's verdicts, and the Coq encodings of the two candidate bounded types (the type itself, and the
+    # referent when it is a reference) so that the model's choice can be named without re-implementing it here
+    exprs = []
+    for t in types:
+        cands = [t] + ([t[2]] if t[0] == "ref" else [])
+        exprs.append("(run_type %s %s, [%s])" % (ps, t_coq(t), "; ".join(t_coq(c) for c in cands)))
+    B = 25
+    batches = ["[" + "; ".join(exprs[i:i + B]) + "]" for i in range(0, len(exprs), B)]
+    terms = [x for lst in common.coq_eval(["Verif.C09.Model"], batches, preamble="Close Scope N_scope.", batch=4, tag="c09t") for x in lst]
+    n = 0
+    for k, (t, term) in enumerate(zip(types, terms)):
+        r_b, r_e = resps[2 * k], resps[2 * k + 1]
+        rep = {"type": t_rust(t), "type_ast": t}
+        getif, ends, cands = term
+        chk.count(("type", t_rust(t)), True)
+        chk.bump("type:" + t[0])
+        if "item_unparsable" in r_b or "item_unparsable" in r_e:
+            chk.bump("type: not a field type for syn (skipped)")
+            continue
+        if "ok" not in r_b or "ok" not in r_e:
+            chk.violation("type-expansion-unreadable", dict(rep, real=[str(r_b)[:300], str(r_e)[:300]]),
+                          "derive(Error) on a struct with field type `%s` is not accepted in-process: %s" % (t_rust(t), str(r_b)[:200]))
+            continue
+        n += 1
+        # bounded type: model
+        want = None
+        if getif != "None":
+            enc = t_from_coq(getif[1])
+            cl = [t] + ([t[2]] if t[0] == "ref" else [])
+            hit = [c for c, ce in zip(cl, cands) if t_from_coq(ce) == enc]
+            want = re.sub(r"\s+", "", t_rust(hit[0])) if hit else "?model-output-is-neither-candidate"
+        # bounded type: real
+        got = None
+        for it in r_b["items"]:
+            for w in it.get("where", []):
+                mm = re.match(r"^(.*) : derive_more :: core :: fmt :: Debug \+ derive_more :: core :: fmt :: Display \+ derive_more :: with_trait :: Error \+ 'static$", w)
+                if mm:
+                    got = re.sub(r"\s+", "", mm.group(1))
+        if got != want:
+            chk.violation("tie-model-type-bound", dict(rep, model=want, real=got),
+                          "field type `%s`: the model bounds %s, the real derive bounds %s" % (t_rust(t), want, got))
+        if (got is not None) != t_mentions_param(t):
+            chk.bump("type: parameter only in a position the walk does not visit" if got is None else "type: bounded without naming a parameter")
+        # `Backtrace`-named type: model vs real (two-field tuple: the other field becomes the source iff field 0 is the backtrace)
+        real_ends = any(re.search(r"Some \(self \. 1 \. as_dyn_error \(\)\)", mb["body"]) for it in r_e["items"] for mb in it.get("members", [])
+                        if mb["sig"].split()[1] == "source")
+        if real_ends != (ends == "true"):
+            chk.violation("tie-model-type-backtrace", dict(rep, model=ends, real=real_ends),
+                          "field type `%s`: model says is_type_path_ends_with_segment(.., \"Backtrace\") = %s, the real derive behaves as %s" %
+                          (t_rust(t), ends, real_ends))
+    return len(types), n
+
+
 # ------------------------------------------------------------------ the check
 
 def classify(case, real_outcome, returned, exp):
@@ -777,6 +1053,7 @@ def run(tier, seed, replay):
     stable, nightly = [], []
     skipped = {"provide-type-mismatch": 0, "provide-through-box": 0, "rejected": 0, "panic": 0, "missing-bound": 0}
     n_tie = 0
+    n_prov = 0
     deferred = {}                  # cid -> verdict on the expansion, reported together with the run-time observation
     verdicts = []                  # oracle verdicts, reported in layout order (hand corpus first) at the end
 
@@ -808,6 +1085,23 @@ def run(tier, seed, replay):
         if kind != "struct" and r["outcome"] == "ok" and m.get("enum") and \
                 (m["enum"][0] != "ok" or m["enum"][1] != m["returned"] or m["enum"][2] is not None):
             chk.violation("tie-model", dict(rep, model=m), "render_enum disagrees with the per-variant expansion on %s" % show(c))
+        # provide(): model vs expansion, Coq spec vs independent evaluator, expansion vs documented rules
+        if kind != "ignored_variant":
+            mp = m["provide"]
+            dp = doc_provide(shape, fields)
+            if mp["doc_backtrace"] != doc_backtrace(shape, fields) or mp["doc_provide"] != dp:
+                chk.violation("spec-oracle-mismatch", dict(rep, coq=[mp["doc_backtrace"], mp["doc_provide"]],
+                                                           evaluator=[doc_backtrace(shape, fields), dp]),
+                              "Coq documented_backtrace/provide vs the independent evaluator on %s" % show(c))
+            if r["outcome"] == "ok":
+                n_prov += 1
+                if mp["outcome"] != "ok" or tuple(mp["provided"]) != tuple(r["provided"]):
+                    chk.violation("tie-model-provide", dict(rep, model=mp, real=r["provided"]),
+                                  "model provide() offers %s, the expansion %s on %s" % (mp["provided"], r["provided"], show(c)))
+                if dp != "ambiguous" and tuple(r["provided"]) != tuple(dp):
+                    emit(cid, "provide-wrong-field", dict(rep, observed={"provide_offers": r["provided"]}, documented_provide=dp),
+                         "%s: provide() offers (backtrace by reference, forwarded source) = %s, the documented rules say %s" %
+                         (show(c), r["provided"], dp))
         # regression coverage: layouts on which the code before commit 6329c3f (Model.expand_old) misbehaved
         if kind != "ignored_variant":
             old = m["old"]
@@ -895,8 +1189,22 @@ def run(tier, seed, replay):
                           "model (%s, fn %s, wildcard %s, returns %s, bounds %s) vs expansion (%s, fn %s, wildcard %s, returns %s, bounds %s) on %s" %
                           (m["outcome"], m["has_fn"], m["wildcard"], m["returned"], m["bounds"], r["outcome"], r.get("has_fn"),
                            r.get("wildcard"), r.get("returned"), r.get("bounds"), m_show(vs)))
-        if m["outcome"] == "ok" and not m["exhaustive"]:
+        if m["outcome"] == "ok" and not (m["exhaustive"] and m["provide"]["exhaustive"]):
             chk.violation("model-match-not-exhaustive", dict(rep, model=m), "the model emits a non-exhaustive match for %s" % m_show(vs))
+        if r["outcome"] == "ok":
+            mp = m["provide"]
+            n_prov += 1
+            if mp["outcome"] != "ok" or mp["has_fn"] != r["provide"] or (r["provide"] and mp["wildcard"] != bool(r["provide_wildcard"])) or \
+                    [tuple(x) for x in mp["provided"]] != [tuple(x) for x in r["provided"]]:
+                chk.violation("tie-model-provide", dict(rep, model=mp, real={"provide": r["provide"], "wildcard": r["provide_wildcard"],
+                                                                             "provided": r["provided"]}),
+                              "model provide() (fn %s, wildcard %s, offers %s) vs expansion (fn %s, wildcard %s, offers %s) on %s" %
+                              (mp["has_fn"], mp["wildcard"], mp["provided"], r["provide"], r["provide_wildcard"], r["provided"], m_show(vs)))
+            if exp != "ambiguous":
+                wantp = [(None, None) if v[0] else doc_provide(v[1], v[2]) for v in vs]
+                if "ambiguous" not in wantp and [tuple(x) for x in r["provided"]] != [tuple(x) for x in wantp]:
+                    emit(cid, "provide-wrong-field", dict(rep, observed={"provide_offers": r["provided"]}, documented_provide=wantp),
+                         "%s: provide() offers %s per variant, the documented rules say %s" % (m_show(vs), r["provided"], wantp))
         # oracle on the expansion
         if r["outcome"] == "panic":
             e_skipped["panic"] += 1
@@ -960,6 +1268,12 @@ def run(tier, seed, replay):
                 emit(cid, *deferred.pop(cid))
             continue
         (e_nightly if r["provide"] else e_stable).append((cid, frozenset(r["real"])))
+
+    # ---- field types: which types get the bound / count as `Backtrace` (model of utils.rs vs the real derive)
+    n_types = n_types_tied = 0
+    if not replay:
+        n_types, n_types_tied = run_types(chk, inproc, tier)
+        n_tie += n_types_tied
 
     # ---- run time: the real proc-macro, rustc, execution
     if tier == "quick" and not replay:
@@ -1083,6 +1397,8 @@ def run(tier, seed, replay):
     chk.cov["traces_validated_against_impl"] = n_tie
     chk.cov["runtime_observations"] = n_rt
     chk.cov["not_compiled"] = skipped
+    chk.cov["provide_expansions_tied"] = n_prov
+    chk.cov["field_types_tied"] = n_types_tied
     chk.cov["enums"] = len(enums)
     chk.cov["enums_compiled"] = len(e_stable) + len(e_nightly)
     chk.cov["enums_not_compiled"] = e_skipped
@@ -1106,7 +1422,8 @@ def run(tier, seed, replay):
              "+ multi-variant enums: every sequence of length 1..3 (thorough 1..4) over {variant with source, without source, "
              "ignored with / without a would-be source} x 7 (25) random concretisations, every order of {source, ignored...} "
              "with all enabled variants having a source, 40 (400) enums with one ambiguous enabled variant, a hand corpus; every "
-             "layout goes through the in-process expansion and the Coq model, the compilable ones through rustc (stable; nightly "
+             "+ field types: a 40-entry corpus + 700 (6000) random type trees of depth <= 3 for the bound/Backtrace predicates; every "
+             "layout goes through the in-process expansion and the Coq model (source, bound, backtrace, provide), the compilable ones through rustc (stable; nightly "
              "when the expansion has `provide`) and are executed; non-trivial = a field is selected, or an attribute is present, "
              "or the derive is rejected/panics; distinct by layout",
         trusted=TRUSTED)
@@ -1122,7 +1439,10 @@ META = {
             "ignored fields and so is the generated code, ambiguous layouts are always rejected, the None cases, selection "
             "and bound correctness and absence of index panics for every layout (enabled-space positions are translated "
             "through field_indexes before they reach the all-fields pattern), and for whole enums: the emitted match is "
-            "exhaustive (wildcard iff some variant of ALL variants has no arm) and ignored variants return None. The model is re-tied on every run to the real expansion of every "
+            "exhaustive (wildcard iff some variant of ALL variants has no arm) and ignored variants return None; the derive is "
+            "rejected exactly on a documented ambiguity of source or backtrace; provide() offers the documented backtrace and "
+            "forwards to the documented source; the type walk that decides the bound is characterised by the identifiers it "
+            "visits. The model is re-tied on every run to the real expansion of every "
             "generated layout, and source() of the compiled real macro is compared by address with the fields of the value.",
     "note": "Trusted: Coq kernel/vm_compute; the hand model (tied by differential runs); the reading of the emitted code "
             "(validated by execution); the Python evaluator of the documented rules (cross-checked against the Coq spec). "
